@@ -248,6 +248,26 @@ impl SyncStateV1 {
     }
 }
 
+/// Element counts read off the wire come from a peer: refuse a count that the
+/// remaining input cannot possibly hold (`min_elem_bytes` per element) and
+/// never reserve more than a small amount up front, the collections grow as
+/// elements are actually decoded.
+pub(crate) fn bounded_capacity<'a, C, R>(
+    reader: &R,
+    len: usize,
+    min_elem_bytes: usize,
+) -> Result<usize, C::Error>
+where
+    C: speedy::Context,
+    R: speedy::Reader<'a, C>,
+{
+    let (required, overflow) = len.overflowing_mul(min_elem_bytes);
+    if overflow || reader.can_read_at_least(required) == Some(false) {
+        return Err(speedy::Error::custom("element count exceeds the remaining input").into());
+    }
+    Ok(cmp::min(len, 1024))
+}
+
 impl<'a, C> Readable<'a, C> for SyncStateV1
 where
     C: speedy::Context,
@@ -258,11 +278,11 @@ where
 
         // Read need: HashMap<ActorId, Vec<RangeInclusive<CrsqlDbVersion>>>
         let need_len = usize::read_from(reader)?;
-        let mut need = HashMap::with_capacity(need_len);
+        let mut need = HashMap::with_capacity(bounded_capacity(reader, need_len, 24)?);
         for _ in 0..need_len {
             let actor_id = ActorId::read_from(reader)?;
             let ranges_len = usize::read_from(reader)?;
-            let mut ranges = Vec::with_capacity(ranges_len);
+            let mut ranges = Vec::with_capacity(bounded_capacity(reader, ranges_len, 16)?);
             for _ in 0..ranges_len {
                 let start = CrsqlDbVersion::read_from(reader)?;
                 let end = CrsqlDbVersion::read_from(reader)?;
@@ -273,15 +293,15 @@ where
 
         // Read partial_need: HashMap<ActorId, HashMap<CrsqlDbVersion, Vec<RangeInclusive<CrsqlSeq>>>>
         let partial_need_len = usize::read_from(reader)?;
-        let mut partial_need = HashMap::with_capacity(partial_need_len);
+        let mut partial_need = HashMap::with_capacity(bounded_capacity(reader, partial_need_len, 24)?);
         for _ in 0..partial_need_len {
             let actor_id = ActorId::read_from(reader)?;
             let versions_len = usize::read_from(reader)?;
-            let mut versions_map = HashMap::with_capacity(versions_len);
+            let mut versions_map = HashMap::with_capacity(bounded_capacity(reader, versions_len, 16)?);
             for _ in 0..versions_len {
                 let version = CrsqlDbVersion::read_from(reader)?;
                 let seq_ranges_len = usize::read_from(reader)?;
-                let mut seq_ranges = Vec::with_capacity(seq_ranges_len);
+                let mut seq_ranges = Vec::with_capacity(bounded_capacity(reader, seq_ranges_len, 16)?);
                 for _ in 0..seq_ranges_len {
                     let start = CrsqlSeq::read_from(reader)?;
                     let end = CrsqlSeq::read_from(reader)?;
@@ -384,7 +404,7 @@ where
             1 => {
                 let version = CrsqlDbVersion::read_from(reader)?;
                 let seqs_len = usize::read_from(reader)?;
-                let mut seqs = Vec::with_capacity(seqs_len);
+                let mut seqs = Vec::with_capacity(bounded_capacity(reader, seqs_len, 16)?);
                 for _ in 0..seqs_len {
                     let start = CrsqlSeq::read_from(reader)?;
                     let end = CrsqlSeq::read_from(reader)?;
@@ -401,6 +421,13 @@ where
             ))
             .into()),
         }
+    }
+
+    // variant tag + the smallest variant (`Empty { ts: None }`); lets speedy bound
+    // the reservation it makes for a `Vec<SyncNeedV1>` by the remaining input
+    #[inline]
+    fn minimum_bytes_needed() -> usize {
+        2
     }
 }
 
